@@ -10,9 +10,16 @@ use nexrad_data::aws::realtime::Chunk;
 use nexrad_data::volume::{split_compressed_records, File, Record};
 use serde_json::json;
 
+/// CPU seconds one public call may consume on inputs of at most 64 KiB before it is reported as
+/// non-terminating (the unchanged code needs milliseconds; see `max_case_cpu_ms` in the evidence).
+pub const CPU_BUDGET_S: u64 = 20;
+
 fn call<T>(obs: &mut Obs, op: &str, family: &str, input: &[u8], f: impl FnOnce() -> T) -> Option<T> {
     obs.count("public_calls", 1);
-    match mon::catch(f) {
+    mon::case_begin(op, family, input);
+    let r = mon::catch(f);
+    mon::case_end();
+    match r {
         Ok(v) => Some(v),
         Err(p) => {
             obs.violation(
@@ -169,11 +176,17 @@ pub fn run(ctx: &mut Ctx) {
         println!("replay: recorded input was abbreviated; re-running the whole seeded workload");
     }
     ctx.rule = "a case is one byte string wrapped as File / Record (owned and borrowed) / Chunk and driven through records, header (+accessors), compressed, decompress (and the decompressed record's own calls), messages, scan, split_compressed_records and {:?} of each; \
-trivial = empty input; distinct = distinct input contents; families: every length 0..=64 x 12 content families, every truncation point of valid volumes/containers/chunks, corrupted size prefix at every record, 1-16 bit flips in bzip2 bodies, random bytes to 8 KiB; verdict monitor = panic hook (termination is bounded only by the outer wall-clock watchdog, which yields inconclusive)"
+trivial = empty input; distinct = distinct input contents; families: every length 0..=64 x 12 content families, every truncation point of valid volumes/containers/chunks, corrupted size prefix at every record, 1-16 bit flips in bzip2 bodies, random bytes to 8 KiB; verdict monitors = panic hook and a per-call CPU-time budget of 20 s (thread CPU clock, not wall time) as the termination monitor"
         .into();
     ctx.exhaustive = Some("every length 0..=64 for each of 12 content families; every truncation point of the generated valid files in this run".into());
     ctx.floor_evaluations = 1_000;
     let seed = ctx.seed;
+    {
+        let (tier, sd) = (ctx.tier, ctx.seed);
+        mon::start_cpu_watchdog(CPU_BUDGET_S, move |op, family, input, cpu| {
+            crate::ev::report_stuck_and_exit("C06", tier, sd, op, family, input, cpu, CPU_BUDGET_S)
+        });
+    }
 
     // ---- every length 0..=64 x families -------------------------------------------------------
     {
@@ -299,4 +312,5 @@ trivial = empty input; distinct = distinct input contents; families: every lengt
             obs.sample(json!({"family": family, "len": input.len(), "input": crate::ev::hex_abbrev(&input, 48)}));
         }
     });
+    ctx.obs.max("case_cpu_ms", mon::MAX_CASE_CPU_MS.load(std::sync::atomic::Ordering::Relaxed));
 }
